@@ -152,7 +152,7 @@ var specs = map[string]Spec{
 		MaxProcs:    []int{16, 4, 2, 1},
 		Level:       "fault_enumeration",
 		LevelText:   "For each base scenario the run is repeated with one stream broken right after each of its boundary events (every shard, every event kind, every position; both fault sides: the initiating cluster's connection dies / the proxy's reverse stream to the source fails), with reconnect delays 0 / 0.5 / 3 s, and in the thorough tier with a second break during recovery; sources resume from the last acknowledgement they received. The C01 oracle runs across incarnations: an acknowledgement may never pass a task no target incarnation confirmed.",
-		LevelNote:   "Fault positions are logical (after the k-th event of a kind on a stream) and enumerated; the thread interleaving around each position is sampled. Fake peers as in C01. Breaks of intra-proxy streams between instances are not modelled.",
+		LevelNote:   "Fault positions are logical (after the k-th event of a kind on a stream) and enumerated; the thread interleaving around each position is sampled. Fake peers as in C01. Breaks of intra-proxy streams between instances are not modelled. One more base (both tiers, quick position set): a target that falls more than a thousand entries behind after its first acknowledgements, so that the sender's proxy-id table wraps and grows with a non-zero head; streams break while that backlog is held.",
 		Technique:   "runtime monitor + fault injection: enumerated stream-break positions on the real handlers in virtual time, online ack-implies-confirmed oracle across stream incarnations",
 		DesignRef:   "DESIGN.md §4 C04",
 		Rule:        "cases = base scenarios x (shard, event kind, position, fault side, reconnect delay) [+ sampled double faults in thorough]; non-trivial = the planned fault actually fired; distinct = distinct interleaving signatures",
